@@ -56,6 +56,13 @@ Pairs == IF Part # 0 THEN {} ELSE UNION {{<<p, q>> : p \in PairPool(fnc), q \in 
 ASSUME \A c \in Cases : ~Usable(c) \/ PrintT(<<"CASE", ToJson([c |-> c, n |-> Supply(c).n, exp |-> Verdict(IF Supply(c).cut THEN [c EXCEPT !.delta = -1] ELSE c)])>>)
 ASSUME \A pq \in Pairs : PrintT(<<"PAIR", ToJson([c1 |-> pq[1], n1 |-> Supply(pq[1]).n, c2 |-> pq[2], n2 |-> Supply(pq[2]).n])>>)
 
+\* device attributes: every data type code (and undefined ones) x lengths around the legal ones x {short, exact, long}
+AttrCases == IF Part # 0 THEN {} ELSE
+    {[v |-> v, set |-> st, code |-> cd, len |-> ln, delta |-> d, fnc |-> f] :
+        v \in {1, 196, 211, 252}, st \in {0, 7}, cd \in {0, 1, 2, 3, 4, 5, 6, 7, 8, 100, 254}, ln \in {0, 1, 2, 3, 4, 5, 6, 8, 40},
+        d \in {-1, 0, 1}, f \in {"write", "resp"}}
+ASSUME \A a \in AttrCases : (a.len + a.delta < 0) \/ PrintT(<<"ATTR", ToJson([at |-> a, exp |-> AttrType(a)])>>)
+
 Init == x = 0
 Next == x' = x
 Spec == Init /\ [][Next]_x
